@@ -369,13 +369,15 @@ func (s *Solver) cvc5(extraRef string, refs []string) (Result, []uint64) {
 	cmd := exec.Command("cvc5", "--solve-bv-as-int=sum", "--tlimit="+strconv.Itoa(tl), f.Name())
 	out, _ := cmd.CombinedOutput()
 	txt := string(out)
+	first := strings.TrimSpace(strings.SplitN(txt, "\n", 2)[0])
+	if first == "unsat" {
+		// the (get-value) that follows an unsat answer is an error by construction; ignore it
+		return Unsat, nil
+	}
 	if strings.Contains(txt, "(error") {
 		return Unknown, nil
 	}
-	first := strings.TrimSpace(strings.SplitN(txt, "\n", 2)[0])
 	switch first {
-	case "unsat":
-		return Unsat, nil
 	case "sat":
 		if len(refs) == 0 {
 			return Sat, nil
